@@ -67,6 +67,14 @@ def async_part(chk: Check, view: AsyncView):
         return
     app = normal[0]
     loc = chk.loc(fi, app.node)
+    # a row appended for a step that was skipped (the supervisor's pending step at stop / reset) carries no output of its own:
+    # every output leaf is None (get_record drops it); it must not be filled from another step
+    for e in [x for x in apps if x is not app]:
+        rs = _no_isinstance(e.args[0], True)
+        outv = dict(rs[2]).get("output") if rs[0] == "replace" else None
+        ok_sk = outv == T.NONE  # tree_map(lambda x: None, <template>) is None on every leaf
+        chk.add("C13.rows", "row of a skipped step carries no output", bool(ok_sk), f"the row appended for a skipped supervisor step gets output = {T.show(outv)[:120] if outv else None}, "
+                "expected an all-None tree (a never-executed step must not show an output)", chk.loc(fi, e.node))
     rec0 = _no_isinstance(app.args[0], False)
     for clock, cterm in (("SIMULATED", SIMULATED), ("WALL_CLOCK", WALL)):
         rec = T.subst(rec0, {CLOCK: cterm})
@@ -313,6 +321,17 @@ def compiled_part(chk: Check, model, cv: CompiledView):
             chk.add("C13.rows", f"init_record template {f} = -1", okf, f"StepRecord template {f} = {T.show(v)[:80]}", chk.loc(fi, recs[0].node))
     else:
         chk.unknown("C13.rows", "init_record template", f"expected one StepRecord template in init_record, found {len(recs)}", chk.loc(fi))
+    # number of rows per node: the node's runs summed over *all* partitions of the schedule (the last partition of the horizon is
+    # executed too), accumulated over its slots, maximum over the episodes
+    cnt = [e for e in rr.events if e.kind == "store_sub" and e.key is not None and e.key[0] == "attr" and e.key[2] == "kind"]
+    okc = len(cnt) == 1
+    if okc:
+        slot = cnt[0].key[1]
+        runs = T.mk_call(("attr", T.mk_attr(slot, "run"), "sum"), [], [("axis", T.const(-1))])
+        t = cnt[0].term
+        okc = t[0] == "num" and any(x == runs for x in T.walk(t)) and not any(x[0] == "slice" for x in T.walk(t)) and T.dict_value(slot) is not None
+    chk.add("C13.rows", "one row per scheduled run (all partitions counted)", bool(okc), f"rows per node = {T.show(cnt[0].term)[:200] if cnt else None}, expected the sum of slot.run over every partition, "
+            "accumulated per node kind (a truncated count makes the writes of the last partition fall outside the record)", chk.loc(fi))
     steps_terms = [dict(e.term[2]).get("steps") for e in rr.events if e.kind == "call" and e.name == "new:NodeRecord"]
     ok = False
     for stt in steps_terms:
